@@ -391,3 +391,62 @@ func (b *B) ErrGuard(rule string, fc *FC, env *SpecEnv, errName, spec string) {
 		b.Eq(rule, construct, b.pos(fc.Fn), got, env, spec)
 	})
 }
+
+// FieldAtExit: value of field `field` of the struct pointed to by parameter
+// idx when the function returns (unique reachable return under the context's
+// assumptions), resolved through the stores that reach the return.
+func (fc *FC) FieldAtExit(idx int, field string) *RF {
+	rets := fc.Ctx.Returns()
+	if len(rets) != 1 {
+		anchorFail("%s: %d reachable returns (need exactly one; add assumptions)", fc.X.W.FuncName(fc.Fn), len(rets))
+	}
+	p := fc.Fn.Params[idx]
+	pt, ok := p.Type().Underlying().(*types.Pointer)
+	if !ok {
+		anchorFail("parameter %d of %s is not a pointer", idx, fc.X.W.FuncName(fc.Fn))
+	}
+	st, ok := pt.Elem().Underlying().(*types.Struct)
+	if !ok {
+		anchorFail("parameter %d of %s does not point to a struct", idx, fc.X.W.FuncName(fc.Fn))
+	}
+	for i := 0; i < st.NumFields(); i++ {
+		if st.Field(i).Name() == field {
+			return fc.Sub(fc.cellValue(cellKey{p, i}, pt.Elem(), rets[0]))
+		}
+	}
+	anchorFail("no field %s", field)
+	return nil
+}
+
+// Sub applies the equalities among the context's assumptions to r.
+func (fc *FC) Sub(r *RF) *RF {
+	m := map[AtomID]*RF{}
+	for _, a := range fc.Assume {
+		if a.Atom != nil {
+			if at := a.Atom.SingleAtom(); at != nil {
+				m[at.ID] = a.Val
+			}
+		}
+	}
+	if len(m) == 0 {
+		return r
+	}
+	return r.Subst(m)
+}
+
+// structFields lists the field names of the struct parameter idx points to.
+func structFieldsOf(fn *ssa.Function, idx int) []string {
+	t := fn.Params[idx].Type()
+	if pt, ok := t.Underlying().(*types.Pointer); ok {
+		t = pt.Elem()
+	}
+	st, ok := t.Underlying().(*types.Struct)
+	if !ok {
+		return nil
+	}
+	var out []string
+	for i := 0; i < st.NumFields(); i++ {
+		out = append(out, st.Field(i).Name())
+	}
+	return out
+}
